@@ -15,6 +15,9 @@ SLUG = [
     ("loop invariant", "invariant"),
     ("unreachable", "unreachable"),
     ("possible bit shift underflow/overflow", "shift-overflow"),
+    ("unable to prove post-condition of closure", "closure-ensures"),
+    ("bitvector assertion not satisfied", "assert-bitvector"),
+    ("decreases not satisfied", "decreases"),
 ]
 
 UNDECIDED_PAT = re.compile(
@@ -96,8 +99,11 @@ def run_unit(meta, rlimit=50, extra=None, timeout=1800, threads=8):
         f = {"message": msg, "kind": slug, "unit_line": line, "clause_line": cl_line, "clause": clause[:160],
              "fn": fn or "?", "file": file, "src_line": src, "splice": lab or clab,
              "rendered": (d.get("rendered") or "")[:1500]}
-        f["obligation"] = f"{unit_name}/{f['fn']}/{slug or 'error'}: {clause[:100]}"
-        if slug is None or d.get("code") or UNDECIDED_PAT.search(msg):
+        if slug is None:
+            slug = re.sub(r"[^a-z0-9]+", "-", msg.lower())[:40].strip("-")
+            f["kind"] = slug
+        f["obligation"] = f"{unit_name}/{f['fn']}/{slug}: {clause[:100]}"
+        if d.get("code") or UNDECIDED_PAT.search(msg):
             f["undecided"] = True
         res["failures"].append(f)
     if hard or any(f.get("undecided") for f in res["failures"]):
